@@ -496,8 +496,8 @@ class SD:
                 base = 0
                 if rb == buf:
                     base = 0
-                elif rb[0] == "slice" and rb[1] == buf and is_const(rb[2]) and rb[3] is None:
-                    base = rb[2][1]
+                elif rb[0] == "slice" and rb[1] == buf and (rb[2] is None or is_const(rb[2])) and (rb[3] is None or is_const(rb[3])):
+                    base = rb[2][1] if rb[2] is not None else 0
                 else:
                     raise AnalysisError(f"{po.qual}[{q}]: unpack source {show(rb)} not modelled")
                 roff = {i: base + o for i, o in enumerate(rf.offsets())}
@@ -1241,3 +1241,67 @@ class SD:
                    "received payload is decoded by SOMEIPSDHeader.parse and its options resolved before dispatch" if ok else f"dispatches {show(a)[:120]}")
         if not seen:
             raise AnalysisError(f"{mr.qual}: no dispatching path")
+
+
+# ====================================================================== range closure (C20-D2)
+def _bits_of_reader(d, widths) -> int:
+    """upper bound (in bits) of the values a reader descriptor can produce"""
+    if d[0] == "pos":
+        return widths[d[1]] * 8
+    if d[0] in ("enumconv", "conv", "bool"):
+        return _bits_of_reader(d[-1], widths)
+    if d[0] == "shr":
+        return max(0, _bits_of_reader(d[1], widths) - d[2])
+    if d[0] == "mask":
+        return min(_bits_of_reader(d[1], widths), int(d[2]).bit_length())
+    if d[0] == "bits":
+        return max(_bits_of_reader(p, widths) + sh for p, sh in d[1])
+    if d[0] == "const":
+        return int(d[1]).bit_length()
+    raise AnalysisError(f"range of reader descriptor {d} not modelled")
+
+
+def _capacity_of_writer(d, width_bits, field) -> t.Optional[int]:
+    """how many bits of `field` the writer expression `d` (packed into width_bits) can take without
+    raising or corrupting a neighbour; None when the field does not occur in d"""
+    if d == ("field", field) or d == ("enum", field) or d == ("packed", field):
+        return width_bits
+    if d[0] == "shr" and d[1] == ("field", field):
+        return width_bits + d[2]
+    if d[0] == "mask" and d[1] == ("field", field):
+        return 10 ** 6  # the masked low part never raises; the complementary high part bounds the field
+    if d[0] == "bits":
+        parts = list(d[1])  # sorted by decreasing shift
+        for i, (pd, sh) in enumerate(parts):
+            if pd == ("field", field):
+                upper = parts[i - 1][1] if i > 0 else width_bits
+                return upper - sh
+    return None
+
+
+def range_closure(sd: "SD", rule: str):
+    """every value a decoder can produce for a field fits where the encoder puts that field"""
+    run, eng = sd.run, sd.eng
+    build = sd.m(ENTRY, "build")
+    widths = [w for w, _ in ENTRY_W]
+    p = [p for p in sd.paths(build, ENTRY) if p.returns()][0]
+    segs = layout.segments(eng, p.retval())
+    wargs = [layout.w_descr(a, ("self", ENTRY)) for a in segs[0][2]]
+    parse, unp = sd.entry_reader.__func__(sd, rule + "-tables") if False else (sd.m(ENTRY, "parse"), None)
+    rets = [q for q in sd.paths(parse, ENTRY) if q.returns()]
+    rv = rets[0].retval()
+    us = layout.find_unpacks(eng, rv[1][0])
+    isit = layout.item_pos(us[0])
+    rf, _ = layout.unpack_call(eng, us[0])
+    rwidths = [w for _, w in rf.items]
+    for f, tm in dict(rv[1][0][2]).items():
+        try:
+            bits = _bits_of_reader(layout.r_descr(tm, isit), rwidths)
+        except AnalysisError:
+            run.ob(rule, f"{ENTRY}:{f}-range", False, loc(parse), f"decoded {f} = {show(tm)[:80]}: value range not derivable")
+            continue
+        caps = [c for c in (_capacity_of_writer(d, widths[i] * 8, f) for i, d in enumerate(wargs) if i < len(widths)) if c is not None]
+        cap = min(caps) if caps else None
+        ok = cap is not None and bits <= cap
+        run.ob(rule, f"{ENTRY}:{f}-range", ok, loc(build),
+               f"decoder yields up to {bits} bits for {f}; encoder accepts {cap if cap is not None else 'nothing (field not emitted)'} bits there")
